@@ -80,6 +80,9 @@ Proof.
     + destruct (hget h LHash); [|discriminate]. apply (IH p h h' Hb Hn' Hd).
     + destruct (hget h LHash); [|discriminate]. apply (IH p h h' Hb Hn' Hd).
     + destruct (hget h LHash); [|discriminate]. apply (IH p h h' Hb Hn' Hd).
+    + destruct (hget h LHash); [|discriminate]. apply (IH p h h' Hb Hn' Hd).
+    + destruct (hget h LHash); [|discriminate]. apply (IH p h h' Hb Hn' Hd).
+    + destruct (hget h LHash); [|discriminate]. apply (IH p h h' Hb Hn' Hd).
 Qed.
 
 Lemma holds_set_holder st m h u m' :
@@ -246,6 +249,15 @@ Proof.
   - cbn [fst snd]. split; [dstep|evs].
   - cbn [fst snd]. split; [dstep|evs].
   - cbn [fst snd]. split; [dstep|evs].
+  - cbn [fst snd]. split; [dstep|evs].
+  - apply andb_true_iff in Hd. destruct Hd as [Hheld Hd]. rewrite hget_held_of in Hheld. rewrite Hheld. cbn [fst snd].
+    split; [|evs]. dstep.
+  - apply andb_true_iff in Hd. destruct Hd as [Hheld Hd]. rewrite hget_held_of in Hheld. rewrite Hheld. cbn [fst snd].
+    split; [|evs]. dstep.
+  - cbn [fst snd]. split; [dstep|evs].
+  - apply andb_true_iff in Hd. destruct Hd as [Hheld Hd]. rewrite hget_held_of in Hheld. rewrite Hheld. cbn [fst snd].
+    split; [|evs]. dstep.
+  - destruct g; cbn [fst snd]; (split; [dstep|evs]).
   - cbn [fst snd]. split; [dstep|evs].
 Qed.
 
@@ -450,6 +462,12 @@ Proof.
   - cbn [fst snd]. split; [estep|eevs].
   - cbn [fst snd]. split; [estep|eevs].
   - cbn [fst snd]. split; [estep|eevs].
+  - cbn [fst snd]. split; [estep|eevs].
+  - cbn [fst snd]. split; [estep|eevs].
+  - cbn [fst snd]. split; [estep|eevs].
+  - cbn [fst snd]. split; [estep|eevs].
+  - destruct g; cbn [fst snd]; (split; [estep|eevs]).
+  - cbn [fst snd]. split; [estep|eevs].
 Qed.
 
 Lemma init_thread d0 progs t ts :
@@ -531,6 +549,7 @@ Proof.
   { intros st1 r Hthr Hnp Hns. apply priv_inv_step with (st := st) (ts := ts); auto.
     cbn [t_rem t_local]. rewrite Hrem. destruct stp; cbn in Hnp |- *; try reflexivity; discriminate. }
   destruct stp; cbn [exec_step];
+    try (match goal with |- context [if ?x then set_x _ _ _ _ _ else _] => destruct x end);
     lazymatch goal with
     | |- context [skipn] => idtac
     | |- context [priv_fun] => idtac
@@ -576,6 +595,7 @@ Proof.
       unfold exec. destruct (nth_error (s_thr st) u) as [tsu|]; [|reflexivity].
       destruct (t_rem tsu) as [|stp rest]; [reflexivity|].
       destruct stp; cbn [exec_step];
+    try (match goal with |- context [if ?x then set_x _ _ _ _ _ else _] => destruct x end);
         try (destruct (holder st m)); try (destruct (holds st u m));
         try (destruct (negb (s_dict st s =? 0))); try (destruct (flag (t_reg tsu)));
         try (destruct (find_rec (s_erecs st) u 0));
@@ -825,6 +845,7 @@ Proof.
   - assert (Hold : ops_of (thread_rem st t) = ops_of (stp :: rest)) by (unfold thread_rem; rewrite Ht, Hrem; reflexivity).
     rewrite Hold.
     destruct stp; cbn [exec_step];
+    try (match goal with |- context [if ?x then set_x _ _ _ _ _ else _] => destruct x end);
       try (destruct (holder st m) eqn:Hh); try (destruct (holds st t m));
       try (destruct (negb (s_dict st s =? 0))); try (destruct (flag (t_reg ts)));
       try (destruct (find_rec (s_erecs st) t 0));
@@ -838,6 +859,7 @@ Proof.
                                      cbn [s_thr set_dict set_err set_canon set_hash]; try (destruct m; cbn [s_thr set_holder]); exact Ht]).
   - rewrite (proj_other u t _ Hne). cbn [app]. f_equal.
     destruct stp; cbn [exec_step];
+    try (match goal with |- context [if ?x then set_x _ _ _ _ _ else _] => destruct x end);
       try (destruct (holder st m) eqn:Hh); try (destruct (holds st t m));
       try (destruct (negb (s_dict st s =? 0))); try (destruct (flag (t_reg ts)));
       try (destruct (find_rec (s_erecs st) t 0));
@@ -1039,6 +1061,7 @@ Proof.
     - intros u _. rewrite H3; reflexivity.
     - intro H. destruct (Hzr H) as [Ha [_ Hc]]. rewrite H3. auto. }
   destruct stp; cbn [exec_step];
+    try (match goal with |- context [if ?x then set_x _ _ _ _ _ else _] => destruct x end);
     try (destruct (holder st m) eqn:Hh); try (destruct (holds st t m));
     try (destruct (negb (s_dict st s =? 0)));
     try (match goal with |- context [skipn] => fail 1 | |- context [flag (t_reg ts)] => destruct (flag (t_reg ts)) end);
@@ -1117,6 +1140,7 @@ Proof.
             ref_inv (set_thr st1 (lset (s_thr st1) t (mkT rest r loc)))).
   { intros st1 r loc H1. apply ref_inv_step with (st := st) (ts := ts); auto. }
   destruct stp; cbn [exec_step];
+    try (match goal with |- context [if ?x then set_x _ _ _ _ _ else _] => destruct x end);
     try (destruct (holder st m) eqn:Hh); try (destruct (holds st t m));
     try (destruct (negb (s_dict st s =? 0)));
     try (match goal with |- context [skipn] => fail 1 | |- context [flag (t_reg ts)] => destruct (flag (t_reg ts)) end);
@@ -1126,7 +1150,7 @@ Proof.
     try (destruct (nth_error (s_erecs st) (p_idx p0)));
     cbn [fst snd]; try discriminate;
     try (split; [first [exact Hinv | apply Hgen; try reflexivity; destruct m; reflexivity]
-                | cbn [map ref_sum s_tref set_thr set_dict set_err set_canon set_hash set_log set_ref];
+                | cbn [map ref_sum s_tref set_thr set_dict set_err set_canon set_hash set_log set_ref set_x];
                   try (destruct m; cbn [s_tref set_holder]); lia]).
   - (* SkipIf *)
     split; [|cbn; lia]. apply ref_inv_step with (st := st) (ts := ts); auto. cbn [t_rem].
@@ -1151,4 +1175,387 @@ Proof.
     destruct (nth_error progs u) as [q|] eqn:Hq; cbn in Hu; [|discriminate]. inversion Hu; subst tsu. cbn [t_rem].
     apply Hall. eapply nth_error_In; exact Hq. }
   destruct (run_ref sched _ H0) as [_ H]. exact H.
+Qed.
+
+(* ---------------------------------------------------------------------------------------------------------------
+   scratch memory: thread-local buffers are interference-free
+   --------------------------------------------------------------------------------------------------------------- *)
+Definition scr_inv (st : state) : Prop :=
+  forall t ts, nth_error (s_thr st) t = Some ts -> scr_unskipped (t_rem ts) = true.
+
+Lemma scr_unskipped_tl s p : scr_unskipped (s :: p) = true -> scr_unskipped p = true.
+Proof. destruct s; cbn; auto. intro H. apply andb_true_iff in H. tauto. Qed.
+
+Lemma scr_unskipped_skipn n : forall p, scr_unskipped p = true -> scr_unskipped (skipn n p) = true.
+Proof.
+  induction n as [|n IH]; intros p H; [exact H|]. destruct p as [|s p]; [exact H|]. cbn [skipn].
+  apply IH. apply (scr_unskipped_tl _ _ H).
+Qed.
+
+Lemma scr_reads_skipn n : forall p x,
+  existsb is_local_scr (firstn n p) = false -> scr_reads (skipn n p) x = scr_reads p x.
+Proof.
+  induction n as [|n IH]; intros p x H; [reflexivity|]. destruct p as [|s p]; [reflexivity|].
+  cbn [firstn existsb skipn] in *. apply orb_false_iff in H. destruct H as [H1 H2].
+  rewrite (IH p x H2). destruct s; cbn in H1 |- *; try reflexivity; destruct g; try reflexivity; discriminate.
+Qed.
+
+Lemma local_reads_app u x y : local_reads u (x ++ y) = local_reads u x ++ local_reads u y.
+Proof.
+  induction x as [|[t e] x IH]; [reflexivity|]. cbn [app local_reads].
+  destruct e; try exact IH. destruct g; [exact IH|]. destruct (Nat.eqb t u); [cbn; f_equal|]; exact IH.
+Qed.
+
+Lemma local_reads_other u t l : u <> t -> local_reads u (map (fun e => (t, e)) l) = [].
+Proof.
+  intro Hne. induction l as [|e l IH]; [reflexivity|]. cbn [map local_reads].
+  destruct e; try exact IH. destruct g; [exact IH|].
+  destruct (Nat.eqb t u) eqn:E; [apply Nat.eqb_eq in E; congruence|exact IH].
+Qed.
+
+Definition thread_lscr (st : state) (t : tid) : N := s_lscr st t.
+
+Lemma exec_scr st t u :
+  scr_inv st ->
+  scr_inv (fst (exec st t)) /\
+  local_reads u (map (fun e => (t, e)) (snd (exec st t))) ++
+    scr_reads (thread_rem (fst (exec st t)) u) (s_lscr (fst (exec st t)) u)
+  = scr_reads (thread_rem st u) (s_lscr st u).
+Proof.
+  intro Hinv. unfold exec. destruct (nth_error (s_thr st) t) as [ts|] eqn:Ht; [|split; [exact Hinv|reflexivity]].
+  destruct (t_rem ts) as [|stp rest] eqn:Hrem; [split; [exact Hinv|reflexivity]|].
+  pose proof (Hinv t ts Ht) as Hu. rewrite Hrem in Hu. pose proof (scr_unskipped_tl _ _ Hu) as Hu'.
+  assert (Hgen : forall st1 r loc rem', s_thr st1 = s_thr st -> scr_unskipped rem' = true ->
+            scr_inv (set_thr st1 (lset (s_thr st1) t (mkT rem' r loc)))).
+  { intros st1 r loc rem' H1 H2 v tsv Hv. cbn [s_thr set_thr] in Hv. rewrite H1 in Hv.
+    destruct (Nat.eq_dec t v) as [->|Hne].
+    - rewrite (lset_same _ _ _ _ Ht) in Hv. inversion Hv; subst tsv. exact H2.
+    - rewrite lset_other in Hv by exact Hne. apply (Hinv v tsv Hv). }
+  assert (Hold : scr_reads (thread_rem st t) (s_lscr st t) = scr_reads (stp :: rest) (s_lscr st t))
+    by (unfold thread_rem; rewrite Ht, Hrem; reflexivity).
+  split.
+  - (* invariant *)
+    destruct stp; cbn [exec_step];
+      try (match goal with |- context [if ?x then set_x _ _ _ _ _ else _] => destruct x end);
+      try (destruct (holder st m) eqn:Hh); try (destruct (holds st t m));
+      try (destruct (negb (s_dict st s =? 0)));
+      try (match goal with |- context [skipn] => fail 1 | |- context [flag (t_reg ts)] => destruct (flag (t_reg ts)) end);
+      try (match goal with |- context [find_rec (s_erecs st) t 0] => destruct (find_rec (s_erecs st) t 0) end);
+      try (match goal with |- context [err_resize ?x1 ?x2 ?x3 ?x4] => destruct (err_resize x1 x2 x3 x4) as [[g0 sz] md] end);
+      try (match goal with |- context [match t_reg ts with _ => _ end] => destruct (t_reg ts) as [|b0|[p0|]|b0] end);
+      try (destruct (nth_error (s_erecs st) (p_idx p0)));
+      cbn [fst]; try exact Hinv;
+      try (apply Hgen; [try reflexivity; destruct m; reflexivity|exact Hu']).
+    apply Hgen; [reflexivity|]. destruct (Bool.eqb (flag (t_reg ts)) b); [apply scr_unskipped_skipn|]; exact Hu'.
+  - destruct (Nat.eq_dec u t) as [->|Hne].
+    + rewrite Hold.
+      destruct stp; cbn [exec_step];
+        try (match goal with |- context [if ?x then set_x _ _ _ _ _ else _] => destruct x end);
+        try (destruct (holder st m) eqn:Hh); try (destruct (holds st t m));
+        try (destruct (negb (s_dict st s =? 0)));
+        try (match goal with |- context [skipn] => fail 1 | |- context [flag (t_reg ts)] => destruct (flag (t_reg ts)) end);
+        try (match goal with |- context [find_rec (s_erecs st) t 0] => destruct (find_rec (s_erecs st) t 0) end);
+        try (match goal with |- context [err_resize ?x1 ?x2 ?x3 ?x4] => destruct (err_resize x1 x2 x3 x4) as [[g0 sz] md] end);
+        try (match goal with |- context [match t_reg ts with _ => _ end] => destruct (t_reg ts) as [|b0|[p0|]|b0] end);
+        try (destruct (nth_error (s_erecs st) (p_idx p0)));
+        cbn [fst snd];
+        try (rewrite Hold; reflexivity);
+        try (erewrite thread_rem_upd;
+             [cbn [map local_reads app scr_reads t_rem s_lscr set_thr set_dict set_err set_canon set_hash set_log set_ref set_x];
+              try (destruct m; cbn [s_lscr set_holder]); unfold nupd; rewrite ?Nat.eqb_refl; try (destruct g); reflexivity
+             |cbn [s_thr set_dict set_err set_canon set_hash set_log set_ref set_x]; try (destruct m; cbn [s_thr set_holder]); exact Ht]).
+      (* SkipIf *)
+      erewrite thread_rem_upd by exact Ht. cbn [map local_reads app t_rem s_lscr set_thr scr_reads].
+      cbn [scr_unskipped] in Hu. apply andb_true_iff in Hu. destruct Hu as [Hu1 _].
+      destruct (Bool.eqb (flag (t_reg ts)) b); [|reflexivity]. apply scr_reads_skipn.
+      destruct (existsb is_local_scr (firstn n rest)); [discriminate|reflexivity].
+    + rewrite (local_reads_other u t _ Hne). cbn [app].
+      destruct stp; cbn [exec_step];
+        try (match goal with |- context [if ?x then set_x _ _ _ _ _ else _] => destruct x end);
+        try (destruct (holder st m) eqn:Hh); try (destruct (holds st t m));
+        try (destruct (negb (s_dict st s =? 0)));
+        try (match goal with |- context [flag (t_reg ts)] => destruct (flag (t_reg ts)) end);
+        try (match goal with |- context [find_rec (s_erecs st) t 0] => destruct (find_rec (s_erecs st) t 0) end);
+        try (match goal with |- context [err_resize ?x1 ?x2 ?x3 ?x4] => destruct (err_resize x1 x2 x3 x4) as [[g0 sz] md] end);
+        try (match goal with |- context [match t_reg ts with _ => _ end] => destruct (t_reg ts) as [|b0|[p0|]|b0] end);
+        try (destruct (nth_error (s_erecs st) (p_idx p0)));
+        cbn [fst snd]; try reflexivity;
+        try (erewrite thread_rem_upd_other;
+             [cbn [s_lscr set_thr set_dict set_err set_canon set_hash set_log set_ref set_x];
+              try (destruct m; cbn [s_lscr set_holder]); unfold nupd;
+              try (destruct (Nat.eqb u t) eqn:E; [apply Nat.eqb_eq in E; congruence|]); reflexivity
+             |try reflexivity; try apply s_thr_set_holder|exact Hne]).
+Qed.
+
+Lemma run_scr sched : forall st u,
+  scr_inv st ->
+  local_reads u (snd (run sched st)) ++
+    scr_reads (thread_rem (fst (run sched st)) u) (s_lscr (fst (run sched st)) u)
+  = scr_reads (thread_rem st u) (s_lscr st u).
+Proof.
+  induction sched as [|t s IH]; intros st u Hinv; cbn [run fst snd]; [reflexivity|].
+  destruct (exec_scr st t u Hinv) as [H1 H2]. rewrite local_reads_app, <- app_assoc. rewrite (IH _ u H1). exact H2.
+Qed.
+
+(* the values a thread reads back from its thread-local scratch buffer, in any schedule and whatever the other threads do
+   (including threads that use the process-wide buffer), are the values it reads running alone *)
+Theorem scratch_local_interference_free d0 progs sched t p :
+  (forall q, In q progs -> scr_unskipped q = true) -> nth_error progs t = Some p ->
+  local_reads t (snd (run sched (init d0 progs))) ++
+    scr_reads (thread_rem (fst (run sched (init d0 progs))) t) (s_lscr (fst (run sched (init d0 progs))) t)
+  = scr_reads p 0.
+Proof.
+  intros Hall Hp.
+  assert (H0 : scr_inv (init d0 progs)).
+  { intros u tsu Hu. destruct (init_thread _ _ _ _ Hu) as [q [Hq ->]]. cbn [t_rem]. apply Hall. eapply nth_error_In; exact Hq. }
+  rewrite (run_scr sched _ t H0). unfold thread_rem. cbn [init s_thr s_lscr]. rewrite nth_error_map, Hp. reflexivity.
+Qed.
+
+Lemma scr_api o q : scr_unskipped q = true -> scr_unskipped (p_api o ++ q) = true.
+Proof. intro H. destruct o; cbn; rewrite ?H; reflexivity. Qed.
+
+Lemma compile_scr_unskipped ops : scr_unskipped (compile ops) = true.
+Proof.
+  induction ops as [|o ops IH]; [reflexivity|]. unfold compile in *. cbn [map concat]. apply scr_api. exact IH.
+Qed.
+
+(* ---------------------------------------------------------------------------------------------------------------
+   LYB hash cache: a thread that went through the locked fill itself always reads cached hashes
+   --------------------------------------------------------------------------------------------------------------- *)
+Definition hash_inv (st : state) : Prop :=
+  forall t ts, nth_error (s_thr st) t = Some ts -> hchk (s_hash2 st) (t_rem ts) = true.
+
+Definition hash_good (_ : tid) (e : event) : Prop := forall b, e = EvHashRead b -> b = true.
+
+Lemma hchk_mono : forall p, hchk false p = true -> hchk true p = true.
+Proof.
+  induction p as [|s p IH]; intro H; [reflexivity|]. destruct s; cbn [hchk] in *; auto; try discriminate.
+  apply andb_true_iff in H. destruct H as [H1 H2]. rewrite H1. cbn. auto.
+Qed.
+
+Lemma hchk_mono' k p : hchk k p = true -> hchk true p = true.
+Proof. destruct k; [auto|apply hchk_mono]. Qed.
+
+Lemma hchk_skipn n : forall p k,
+  existsb is_hash_step (firstn n p) = false -> hchk k p = true -> hchk k (skipn n p) = true.
+Proof.
+  induction n as [|n IH]; intros p k H1 H2; [exact H2|]. destruct p as [|s p]; [exact H2|].
+  cbn [firstn existsb skipn] in *. apply orb_false_iff in H1. destruct H1 as [Ha Hb]. apply IH; [exact Hb|].
+  destruct s; cbn [hchk is_hash_step] in *; auto; try discriminate.
+  apply andb_true_iff in H2. tauto.
+Qed.
+
+Lemma exec_hash st t :
+  hash_inv st -> hash_inv (fst (exec st t)) /\ forall e, In e (snd (exec st t)) -> hash_good t e.
+Proof.
+  intro Hinv. unfold exec. destruct (nth_error (s_thr st) t) as [ts|] eqn:Ht; [|split; [exact Hinv|intros e []]].
+  destruct (t_rem ts) as [|stp rest] eqn:Hrem; [split; [exact Hinv|intros e []]|].
+  pose proof (Hinv t ts Ht) as Hc. rewrite Hrem in Hc.
+  assert (Hgen : forall st1 r loc rem', s_thr st1 = s_thr st ->
+            (s_hash2 st1 = s_hash2 st \/ s_hash2 st1 = true) -> hchk (s_hash2 st1) rem' = true ->
+            hash_inv (set_thr st1 (lset (s_thr st1) t (mkT rem' r loc)))).
+  { intros st1 r loc rem' H1 H2 H3 v tsv Hv. cbn [s_thr set_thr s_hash2] in *. rewrite H1 in Hv.
+    destruct (Nat.eq_dec t v) as [->|Hne].
+    - rewrite (lset_same _ _ _ _ Ht) in Hv. inversion Hv; subst tsv. exact H3.
+    - rewrite lset_other in Hv by exact Hne. destruct H2 as [H2|H2]; rewrite H2.
+      + apply (Hinv v tsv Hv).
+      + apply (hchk_mono' _ _ (Hinv v tsv Hv)). }
+  destruct stp; cbn [exec_step];
+    try (match goal with |- context [if ?x then set_x _ _ _ _ _ else _] => destruct x end);
+    try (destruct (holder st m) eqn:Hh); try (destruct (holds st t m));
+    try (destruct (negb (s_dict st s =? 0)));
+    try (match goal with |- context [skipn] => fail 1 | |- context [flag (t_reg ts)] => destruct (flag (t_reg ts)) end);
+    try (match goal with |- context [find_rec (s_erecs st) t 0] => destruct (find_rec (s_erecs st) t 0) end);
+    try (match goal with |- context [err_resize ?x1 ?x2 ?x3 ?x4] => destruct (err_resize x1 x2 x3 x4) as [[g0 sz] md] end);
+    try (match goal with |- context [match t_reg ts with _ => _ end] => destruct (t_reg ts) as [|b0|[p0|]|b0] end);
+    try (destruct (nth_error (s_erecs st) (p_idx p0)));
+    cbn [fst snd];
+    try (split; [first [exact Hinv
+                       | apply Hgen; [try reflexivity; destruct m; reflexivity
+                                     |left; try reflexivity; destruct m; reflexivity
+                                     |cbn [hchk] in Hc; try (destruct m; cbn [s_hash2 set_holder]); exact Hc]]
+                | intros ev Hev; cbn [In] in Hev;
+                  repeat (destruct Hev as [<-|Hev]; [let HH := fresh "HH" in intros ? HH; discriminate HH|]); contradiction]).
+  - (* SkipIf *)
+    cbn [hchk] in Hc. apply andb_true_iff in Hc. destruct Hc as [Hc1 Hc2].
+    split; [|intros ev []]. apply Hgen; [reflexivity|left; reflexivity|].
+    destruct (Bool.eqb (flag (t_reg ts)) b); [|exact Hc2]. apply hchk_skipn; [|exact Hc2].
+    destruct (existsb is_hash_step (firstn n rest)); [discriminate|reflexivity].
+  - (* HashRead *)
+    cbn [hchk] in Hc. apply andb_true_iff in Hc. destruct Hc as [Hc1 Hc2].
+    split; [apply Hgen; [reflexivity|left; reflexivity|exact Hc2]|].
+    intros ev [<-|[]] b Hb. inversion Hb; subst b. exact Hc1.
+  - (* HashFillRest *)
+    cbn [hchk] in Hc. split.
+    + apply Hgen; [reflexivity|right; reflexivity|exact Hc].
+    + intros ev Hev; cbn [In] in Hev; repeat (destruct Hev as [<-|Hev]; [intros ? HH; discriminate HH|]); contradiction.
+Qed.
+
+Theorem hash_read_after_own_fill d0 progs sched :
+  (forall q, In q progs -> hchk false q = true) ->
+  forall t b, In (t, EvHashRead b) (snd (run sched (init d0 progs))) -> b = true.
+Proof.
+  intro Hall. assert (H0 : hash_inv (init d0 progs)).
+  { intros u tsu Hu. destruct (init_thread _ _ _ _ Hu) as [q [Hq ->]]. cbn [t_rem init s_hash2]. apply Hall.
+    eapply nth_error_In; exact Hq. }
+  destruct (run_invariant hash_inv hash_good exec_hash sched _ H0) as [_ HG].
+  intros t b Hin. apply (HG t _ Hin b eq_refl).
+Qed.
+
+Lemma hchk_api o q k : hchk k q = true -> hchk k (p_api o ++ q) = true.
+Proof.
+  intro H. pose proof (hchk_mono' _ _ H) as H'. destruct o; cbn; rewrite ?H, ?H'; reflexivity.
+Qed.
+
+Lemma compile_hchk ops : hchk false (compile ops) = true.
+Proof.
+  induction ops as [|o ops IH]; [reflexivity|]. unfold compile in *. cbn [map concat]. apply hchk_api. exact IH.
+Qed.
+
+(* ---------------------------------------------------------------------------------------------------------------
+   err_ht slot pointers: a slot read in the critical section of its lookup is never stale
+   --------------------------------------------------------------------------------------------------------------- *)
+Definition slot_inv (st : state) : Prop :=
+  forall t ts, nth_error (s_thr st) t = Some ts -> schk (fresh st t) (t_rem ts) = true.
+
+Definition slot_good (_ : tid) (e : event) : Prop := forall b, e = EvSlot b -> b = true.
+
+Lemma schk_mono : forall p, schk false p = true -> schk true p = true.
+Proof.
+  induction p as [|s p IH]; intro H; [reflexivity|]. destruct s; cbn [schk] in *; auto; try discriminate.
+  - destruct m; auto.
+  - destruct m; auto.
+  - apply andb_true_iff in H. destruct H as [H1 H2]. rewrite H1. cbn. auto.
+Qed.
+
+Lemma schk_mono' f g p : schk f p = true -> (f = g \/ f = false) -> schk g p = true.
+Proof. intros H [-> | ->]; [exact H|]. destruct g; [apply schk_mono|]; exact H. Qed.
+
+Lemma schk_skipn n : forall p f,
+  existsb is_slot_step (firstn n p) = false -> schk f p = true -> schk f (skipn n p) = true.
+Proof.
+  induction n as [|n IH]; intros p f H1 H2; [exact H2|]. destruct p as [|s p]; [exact H2|].
+  cbn [firstn existsb skipn] in *. apply orb_false_iff in H1. destruct H1 as [Ha Hb].
+  assert (Hfalse : schk false p = true -> schk f (skipn n p) = true).
+  { intro H. apply (schk_mono' false); [apply IH; [exact Hb|exact H]|right; reflexivity]. }
+  destruct s; cbn [schk is_slot_step] in *; try discriminate; try (apply IH; [exact Hb|exact H2]); try (apply Hfalse; exact H2).
+  - destruct m; [apply IH; [exact Hb|exact H2]|apply Hfalse; exact H2].
+  - destruct m; [apply IH; [exact Hb|exact H2]|apply Hfalse; exact H2].
+  - apply andb_true_iff in H2. destruct H2 as [_ H2]. apply IH; [exact Hb|exact H2].
+Qed.
+
+Lemma fresh_thr st l u : fresh (set_thr st l) u = fresh st u.
+Proof. reflexivity. Qed.
+
+Lemma exec_slot st t :
+  disc_inv st -> slot_inv st ->
+  slot_inv (fst (exec st t)) /\ forall e, In e (snd (exec st t)) -> slot_good t e.
+Proof.
+  intros Hdi Hs. unfold exec. destruct (nth_error (s_thr st) t) as [ts|] eqn:Ht; [|split; [exact Hs|intros e []]].
+  destruct (t_rem ts) as [|stp rest] eqn:Hrem; [split; [exact Hs|intros e []]|].
+  pose proof (Hs t ts Ht) as Hc. rewrite Hrem in Hc.
+  pose proof (Hdi t ts Ht) as Hd. rewrite Hrem in Hd.
+  assert (Hgen : forall st1 r loc rem', s_thr st1 = s_thr st ->
+            (forall u, u <> t -> fresh st1 u = fresh st u \/ fresh st u = false) ->
+            schk (fresh st1 t) rem' = true ->
+            slot_inv (set_thr st1 (lset (s_thr st1) t (mkT rem' r loc)))).
+  { intros st1 r loc rem' H1 H2 H3 v tsv Hv. rewrite fresh_thr. cbn [s_thr set_thr] in Hv. rewrite H1 in Hv.
+    destruct (Nat.eq_dec t v) as [->|Hne].
+    - rewrite (lset_same _ _ _ _ Ht) in Hv. inversion Hv; subst tsv. exact H3.
+    - rewrite lset_other in Hv by exact Hne. apply (schk_mono' (fresh st v)); [apply (Hs v tsv Hv)|].
+      destruct (H2 v (fun E => Hne (eq_sym E))) as [E|E]; [left; symmetry; exact E|right; exact E]. }
+  assert (Hoth : forall u, u <> t -> holds st t LHash = true -> fresh st u = false).
+  { intros u Hne Hh. unfold fresh, holds in *. cbn [holder] in *. destruct (s_lhash st) as [x|]; [|reflexivity].
+    apply Nat.eqb_eq in Hh. subst x. destruct (Nat.eqb t u) eqn:E; [apply Nat.eqb_eq in E; congruence|reflexivity]. }
+  destruct stp; cbn [exec_step];
+    try (match goal with |- context [if ?x then set_x _ _ _ _ _ else _] => destruct x end);
+    try (destruct (negb (s_dict st s =? 0)));
+    try (match goal with |- context [skipn] => fail 1 | |- context [flag (t_reg ts)] => destruct (flag (t_reg ts)) end);
+    try (match goal with |- context [match t_reg ts with _ => _ end] => destruct (t_reg ts) as [|b0|[p0|]|b0] end);
+    try (destruct (nth_error (s_erecs st) (p_idx p0)));
+    cbn [fst snd];
+    try (split; [apply Hgen; [reflexivity|intros u Hu; left; reflexivity|cbn [schk] in Hc; exact Hc]
+                | intros ev Hev; cbn [In] in Hev;
+                  repeat (destruct Hev as [<-|Hev]; [let HH := fresh "HH" in intros ? HH; discriminate HH|]); contradiction]).
+  - (* Acquire *)
+    destruct (holder st m) as [x|] eqn:Hh; cbn [fst snd].
+    + split; [exact Hs|]. intros ev [<-|[]] b Hb. discriminate Hb.
+    + split; [|intros ev []]. destruct m.
+      * apply Hgen; [reflexivity|intros u Hu; left; reflexivity|cbn [schk] in Hc; exact Hc].
+      * cbn [holder] in Hh. apply Hgen; [reflexivity| |].
+        -- intros u Hu. right. unfold fresh, holds. cbn [holder]. rewrite Hh. reflexivity.
+        -- cbn [schk] in Hc. apply (schk_mono' false); [exact Hc|right; reflexivity].
+  - (* Release *)
+    destruct (holds st t m) eqn:Hh; cbn [fst snd]; (split; [|intros ev Hev; cbn [In] in Hev;
+        repeat (destruct Hev as [<-|Hev]; [let HH := fresh "HH" in intros ? HH; discriminate HH|]); contradiction]).
+    + destruct m.
+      * apply Hgen; [reflexivity|intros u Hu; left; reflexivity|cbn [schk] in Hc; exact Hc].
+      * apply Hgen; [reflexivity| |].
+        -- intros u Hu. right. apply Hoth; [exact Hu|exact Hh].
+        -- cbn [schk] in Hc. apply (schk_mono' false); [exact Hc|right; reflexivity].
+    + destruct m.
+      * apply Hgen; [reflexivity|intros u Hu; left; reflexivity|cbn [schk] in Hc; exact Hc].
+      * apply Hgen; [reflexivity|intros u Hu; left; reflexivity|].
+        cbn [schk] in Hc. apply (schk_mono' false); [exact Hc|right; reflexivity].
+  - (* SkipIf *)
+    cbn [schk] in Hc. apply andb_true_iff in Hc. destruct Hc as [Hc1 Hc2].
+    split; [|intros ev []]. apply Hgen; [reflexivity|intros u Hu; left; reflexivity|].
+    destruct (Bool.eqb (flag (t_reg ts)) b); [|exact Hc2]. apply schk_skipn; [|exact Hc2].
+    destruct (existsb is_slot_step (firstn n rest)); [discriminate|reflexivity].
+  - (* ErrInsert *)
+    cbn [disc needs] in Hd. apply andb_true_iff in Hd. destruct Hd as [Hheld _]. rewrite hget_held_of in Hheld.
+    cbn [schk] in Hc.
+    destruct (find_rec (s_erecs st) t 0).
+    + cbn [fst snd]. split; [|intros ev Hev; cbn [In] in Hev;
+        repeat (destruct Hev as [<-|Hev]; [let HH := fresh "HH" in intros ? HH; discriminate HH|]); contradiction].
+      apply Hgen; [reflexivity|intros u Hu; left; reflexivity|]. apply (schk_mono' false); [exact Hc|right; reflexivity].
+    + destruct (err_resize (s_egen st) (s_esize st) (s_emode st) (N.of_nat (length (s_erecs st ++ [(t, [])])))) as [[g0 sz] md].
+      cbn [fst snd]. split; [|intros ev Hev; cbn [In] in Hev;
+        repeat (destruct Hev as [<-|Hev]; [let HH := fresh "HH" in intros ? HH; discriminate HH|]); contradiction].
+      apply Hgen; [reflexivity| |].
+      * intros u Hu. right. apply Hoth; [exact Hu|exact Hheld].
+      * apply (schk_mono' false); [exact Hc|right; reflexivity].
+  - (* ErrSlotFind *)
+    cbn [disc needs] in Hd. apply andb_true_iff in Hd. destruct Hd as [Hheld _]. rewrite hget_held_of in Hheld.
+    cbn [schk] in Hc.
+    split; [|intros ev Hev; cbn [In] in Hev;
+        repeat (destruct Hev as [<-|Hev]; [let HH := fresh "HH" in intros ? HH; discriminate HH|]); contradiction].
+    apply Hgen; [reflexivity| |].
+    + intros u Hu. right. apply Hoth; [exact Hu|exact Hheld].
+    + assert (Hf : fresh (set_x st (supd (s_slot st) t (match find_rec (s_erecs st) t 0 with
+                                       | Some i => Some (s_egen st, i) | None => None end))
+                          (s_hash2 st) (s_gscr st) (s_lscr st)) t = true).
+      { unfold fresh, slot_current. cbn [s_slot s_egen set_x]. unfold supd. rewrite Nat.eqb_refl.
+        change (holds (set_x st _ (s_hash2 st) (s_gscr st) (s_lscr st)) t LHash) with (holds st t LHash) at 1.
+        rewrite Hheld. destruct (find_rec (s_erecs st) t 0); [rewrite N.eqb_refl|]; reflexivity. }
+      rewrite Hf. exact Hc.
+  - (* ErrSlotRead *)
+    cbn [schk] in Hc. apply andb_true_iff in Hc. destruct Hc as [Hc1 Hc2].
+    split; [apply Hgen; [reflexivity|intros u Hu; left; reflexivity|exact Hc2]|].
+    intros ev [<-|[<-|[]]] b Hb; [discriminate Hb|]. inversion Hb; subst b.
+    unfold fresh in Hc1. apply andb_true_iff in Hc1. destruct Hc1 as [_ Hsc]. exact Hsc.
+Qed.
+
+Theorem slot_read_in_section_valid d0 progs sched :
+  (forall q, In q progs -> disc (false, false) q = true /\ schk false q = true) ->
+  forall t b, In (t, EvSlot b) (snd (run sched (init d0 progs))) -> b = true.
+Proof.
+  intro Hall.
+  assert (H0 : disc_inv (init d0 progs) /\ slot_inv (init d0 progs)).
+  { split; [apply disc_inv_init; intros q Hq; apply (Hall q Hq)|].
+    intros u tsu Hu. destruct (init_thread _ _ _ _ Hu) as [q [Hq ->]]. cbn [t_rem].
+    change (fresh (init d0 progs) u) with false. apply (Hall q). eapply nth_error_In; exact Hq. }
+  destruct (run_invariant (fun st => disc_inv st /\ slot_inv st) slot_good
+              (fun st u HI => conj (conj (proj1 (exec_disc st u (proj1 HI))) (proj1 (exec_slot st u (proj1 HI) (proj2 HI))))
+                                   (proj2 (exec_slot st u (proj1 HI) (proj2 HI))))
+              sched _ H0) as [_ HG].
+  intros t b Hin. apply (HG t _ Hin b eq_refl).
+Qed.
+
+Lemma schk_api o q : schk false q = true -> schk false (p_api o ++ q) = true.
+Proof. intro H. pose proof (schk_mono _ H) as H'. destruct o; cbn; rewrite ?H, ?H'; reflexivity. Qed.
+
+Lemma compile_schk ops : schk false (compile ops) = true.
+Proof.
+  induction ops as [|o ops IH]; [reflexivity|]. unfold compile in *. cbn [map concat]. apply schk_api. exact IH.
 Qed.
